@@ -1,7 +1,7 @@
 """Obligations shared by C01 / C02 / C03 / C19: the graph-rewriting carriers under the sidecar contracts of contracts/graph.py."""
 import z3
 from vlib import core, pyvc
-from contracts import graph, performer, names, signature, tensorinfo
+from contracts import graph, performer, names, signature, tensorinfo, vertical
 from replay import graph_native
 
 TU, DI, QI, QT = 'transformations/transformation_utils.py', 'transformations/dequant_insert.py', 'transformations/quant_insert.py', 'transformations/quantize_tensor.py'
@@ -79,6 +79,90 @@ def tensorinfo_obligations(rep, prop):
         try:
             E = pyvc.run_function(core.Fn(TIG, TIG_Q, src_override=src.replace(a, b)), tensorinfo.TensorInfoGenerator())
             E.obs = [ob for ob in E.obs if ob.label.startswith(('return:', 'loop'))]
+            bad = [ob.label for ob, st, dt, det, mv in pyvc.decide_parallel(E, E.spec, timeout=10000, canary=True) if st != 'proved']; rep.canary(name, bool(bad), str(bad[:3]))
+        except pyvc.Unsupported as e: rep.canary(name, True, str(e))
+    return obs
+
+# ------------------------------------------------------------------------------------------------ vertical optimisation of the instruction generator
+VO_Q = 'TransformationInstructionsGenerator._apply_vertical_optimization'
+def _vo_mods():
+    import importlib
+    core.stub_package(); g = importlib.import_module('ai_edge_quantizer.transformation_instruction_generator'); qt = importlib.import_module('ai_edge_quantizer.qtyping'); import numpy as np
+    mk = lambda s: qt.UniformQuantParams(8, None, np.array([s], dtype=np.float32), np.array([0], dtype=np.int64))
+    return g, qt, {0: mk(0.5), 1: mk(0.5), 2: mk(0.25)}          # parameter objects 0 and 1 are EQUAL (distinct objects, same value), 2 differs
+def _vo_native(case):
+    """the REAL _apply_vertical_optimization on real TransformationInst objects against the contract text, natively.  case: producer=(tr, consumers, param key), rules=[(tr, consumers, param key)]"""
+    g, qt, PAR = _vo_mods(); T = qt.QuantTransformation
+    ptr, pcons, ppar = case['producer']; P = qt.TransformationInst(T(ptr), 7, 3, list(pcons), PAR[ppar])
+    rules = [qt.TransformationInst(T(tr), 7, 3, list(cons), PAR[par]) for (tr, cons, par) in case['rules']]; before = [(r.transformation, list(r.consumers), r.parameters) for r in rules]
+    try: out = g.TransformationInstructionsGenerator._apply_vertical_optimization(None, P, rules)
+    except Exception as e: return dict(confirmed=True, inputs=case, violated=[f'raised {type(e).__name__}: {e}'])
+    exp = []; pc = list(pcons)
+    for r in rules:
+        dq = T(ptr) == T.ADD_DEQUANTIZE; same = PAR[ppar] == r.parameters
+        if dq and r.transformation in (T.ADD_QUANTIZE, T.NO_QUANTIZE):
+            for c in r.consumers:
+                if c in pc: pc.remove(c)
+        if dq and r.transformation == T.ADD_QUANTIZE and same: exp.append(('new', T.QUANTIZE_TENSOR, r.consumers, r.parameters))
+        elif dq and r.transformation == T.ADD_QUANTIZE: exp += [('new', T.QUANTIZE_TENSOR, r.consumers, PAR[ppar]), ('new', T.ADD_QUANTIZE, r.consumers, r.parameters)]
+        elif dq and r.transformation == T.NO_QUANTIZE: exp.append(('new', T.ADD_DEQUANTIZE, r.consumers, PAR[ppar]))
+        else: exp.append(('same', r))
+    if pc: exp.insert(0, ('same', P))
+    bad = []
+    if len(out) != len(exp): bad.append(f'{len(out)} instructions, contract says {len(exp)}')
+    for k, (o, e) in enumerate(zip(out, exp)):
+        if e[0] == 'same':
+            if o is not e[1]: bad.append(f'entry {k}: expected the original rule object')
+        elif any(o is r for r in rules) or o is P or o.transformation != e[1] or list(o.consumers) != list(e[2]) or o.parameters is not e[3] and o.parameters != e[3] or (o.tensor_id, o.producer) != (7, 3):
+            bad.append(f'entry {k}: got ({o.transformation}, consumers {list(o.consumers)}), contract says new ({e[1]}, consumers {list(e[2])})')
+    if list(P.consumers) != pc: bad.append(f'producer rule consumers {list(P.consumers)}, contract says {pc}')
+    if [(r.transformation, list(r.consumers), r.parameters) for r in rules] != before: bad.append('a consumer rule was modified')
+    return dict(confirmed=bool(bad), inputs=case, violated=bad)
+def _vo_search(label=None):
+    import itertools
+    clists = ([0], [0, 1], [1, 0, 1], []); rlists = ([0], [1], [0, 1], [2], [0, 0])
+    for ptr, pcons, ppar in itertools.product((2, 1, 0), clists, (0,)):
+        for nr in (1, 2):
+            for rules in itertools.product([(tr, c, par) for tr in (1, 0, 2, 3) for c in rlists for par in (1, 2)], repeat=nr):
+                if nr == 2 and (rules[0][0] not in (0, 1) or rules[1][1] not in ([0], [0, 1], [0, 0])): continue          # keep the two-rule scope small
+                r = _vo_native(dict(producer=(ptr, list(pcons), ppar), rules=[(tr, list(c), par) for tr, c, par in rules]))
+                if r['confirmed']: return r
+    return None
+def _vo_predicates(rep, prop):
+    """contracts of the three predicates, decided by executing the real functions over their whole finite domain (5 x 5 transformations x equal / different parameters)"""
+    g, qt, PAR = _vo_mods(); T = qt.QuantTransformation; DQ, Q, NO = T.ADD_DEQUANTIZE, T.ADD_QUANTIZE, T.NO_QUANTIZE
+    ref = {'check_dq_q_elimination': lambda a, b, same: a == DQ and b == Q and same, 'check_replace_dq_q_with_rq': lambda a, b, same: a == DQ and b == Q and not same,
+           'check_dq_no_quant_elimination': lambda a, b, same: a == DQ and b == NO}
+    ok_enum = {t.name: t.value for t in T} == vertical.TR
+    rep.add(core.Ob(f'{prop}/qtyping.QuantTransformation/enum-values-are-the-ones-the-contract-uses', None, 'exhaustive-native', core.PROVED if ok_enum else core.REFUTED, 0.0, clause=str(vertical.TR)))
+    for name, f in ref.items():
+        fn = rep.fn(core.Fn(TIG, name)); bad = []
+        for a in T:
+            for b in T:
+                for par, same in ((1, True), (2, False)):
+                    got = getattr(g, name)(qt.TransformationInst(a, 0, -1, [0], PAR[0]), qt.TransformationInst(b, 0, -1, [0], PAR[par]))
+                    if bool(got) != bool(f(a, b, same)): bad.append((a.name, b.name, same, bool(got)))
+        ob = core.Ob(f'{prop}/{fn.name}/predicate-contract', fn, 'exhaustive-native', core.PROVED if not bad else core.REFUTED, 0.0, detail=str(bad[:3]), clause='value == the contract used at the call site of _apply_vertical_optimization, for all 5 x 5 transformations x equal/different parameters')
+        if bad: ob.replay = dict(confirmed=True, inputs=bad[0])
+        rep.add(ob)
+VO_CANARIES = [('_apply_vertical_optimization: membership guard of list.remove dropped in the elimination branch (the repaired defect class)',
+                "      if check_dq_q_elimination(producer_trans_rule, trans_rule):\n        for consumer_id in trans_rule.consumers:\n          if consumer_id in producer_trans_rule.consumers:\n            producer_trans_rule.consumers.remove(consumer_id)",
+                "      if check_dq_q_elimination(producer_trans_rule, trans_rule):\n        for consumer_id in trans_rule.consumers:\n          if True:\n            producer_trans_rule.consumers.remove(consumer_id)"),
+               ('_apply_vertical_optimization: requantize emits ADD_DEQUANTIZE instead of ADD_QUANTIZE', "                qtyping.QuantTransformation.ADD_QUANTIZE,\n", "                qtyping.QuantTransformation.ADD_DEQUANTIZE,\n"),
+               ('_apply_vertical_optimization: producer rule appended instead of put first', "      transformations.insert(0, producer_trans_rule)", "      transformations.append(producer_trans_rule)"),
+               ('_apply_vertical_optimization: producer rule kept although it has no consumer left', "    if producer_trans_rule.consumers:\n      transformations.insert", "    if True:\n      transformations.insert")]
+def vertical_obligations(rep, prop):
+    obs = pyvc.verify(rep, prop, core.Fn(TIG, VO_Q), vertical.VerticalOptimization(), select=None, replay=lambda mv, label: _vo_search(label) or dict(confirmed=False, inputs=mv), fallback=_vo_search)
+    for name, hyps, goal in vertical.pos_lemmas():
+        sv = z3.Solver(); sv.set('timeout', 20000); sv.add(*hyps); sv.add(z3.Not(goal)); r = sv.check()
+        rep.add(core.Ob(f'{prop}/spec-lemma/{name}', None, 'z3-lia(induction step)', core.PROVED if r == z3.unsat else (core.REFUTED if r == z3.sat else core.UNKNOWN), 0.0, clause=str(goal)))
+    _vo_predicates(rep, prop)
+    src = core.read_source(TIG)
+    sel = VO_CANARIES if rep.tier == 'thorough' else [VO_CANARIES[(rep.seed + k) % len(VO_CANARIES)] for k in (0, 1)]
+    for name, a, b in sel:
+        if a not in src: rep.canary(name, False, 'mutation site not found (stale canary)'); continue
+        try:
+            E = pyvc.run_function(core.Fn(TIG, VO_Q, src_override=src.replace(a, b, 1)), vertical.VerticalOptimization())
             bad = [ob.label for ob, st, dt, det, mv in pyvc.decide_parallel(E, E.spec, timeout=10000, canary=True) if st != 'proved']; rep.canary(name, bool(bad), str(bad[:3]))
         except pyvc.Unsupported as e: rep.canary(name, True, str(e))
     return obs
